@@ -101,10 +101,17 @@ def printToks (mn : String) (ops : List Operand) : PCmd := âŸ¨mn, ops.map opTokâ
 
 /-! ### Assembler (`assemble_subroutine` on label-free commands) -/
 
-/-- `get_current_registers`: registers that occur as top-level operands -/
+def pvalRegs : PVal â†’ List Reg
+  | .reg r => [r]
+  | .int _ => []
+
+/-- `get_current_registers` (after the fix of F3): registers that occur as top-level
+operands, as the index of an array entry or as the bounds of an array slice -/
 def opRegs : List POp â†’ List Reg
   | [] => []
   | .reg r :: os => r :: opRegs os
+  | .entry _ i :: os => pvalRegs i ++ opRegs os
+  | .slice _ s e :: os => pvalRegs s ++ pvalRegs e ++ opRegs os
   | _ :: os => opRegs os
 
 def currentRegs : List PCmd â†’ List Reg
